@@ -4,6 +4,7 @@ import (
 	"bytes"
 	"fmt"
 	"runtime"
+	"sync/atomic"
 	"time"
 
 	"github.com/relab/gorums"
@@ -76,6 +77,10 @@ func (r *Runner) finalCmd(kind string) []puppetsrv.Cmd {
 	}
 	return []puppetsrv.Cmd{{Kind: "reply", Val: 1}}
 }
+
+// LastProgramClean reports whether the last program ended with every
+// invocation and handler returned, empty router tables and no per-call goroutine.
+var LastProgramClean = true
 
 // RunProgram executes a program and returns the call tokens it used.
 func (r *Runner) RunProgram(p Program) []uint64 {
@@ -223,10 +228,15 @@ func (r *Runner) RunProgram(p Program) []uint64 {
 	for _, t := range toks {
 		mine[t] = true
 	}
+	// without cancellations (and so without connection resets) every targeted
+	// server handles every call
 	want := 0
 	for _, c := range calls {
-		if c.pc.Cancel == "" {
-			want += len(c.targets)
+		want += len(c.targets)
+	}
+	for _, c := range calls {
+		if c.pc.Cancel != "" {
+			want = 0
 		}
 	}
 	starts, returns := 0, 0
@@ -245,26 +255,39 @@ func (r *Runner) RunProgram(p Program) []uint64 {
 	}
 	// late replies of calls that ended early have been routed or dropped by now?
 	time.Sleep(200 * time.Microsecond)
+	// a stream call whose quorum function has not reported done completes only
+	// by its context (by design): end it now that every handler has returned
+	for _, c := range calls {
+		if c.kind == "corrstream" && c.obj.corr != nil {
+			select {
+			case <-c.obj.corr.Done():
+			case <-time.After(20 * time.Millisecond):
+				if c.ctx.Err() == nil {
+					tr.Emit("CtxEnd", 0, c.tok, "cause", "canceled")
+					c.ctx.End("canceled")
+				}
+				select {
+				case <-c.obj.corr.Done():
+				case <-time.After(SyncTimeout):
+					clean = false
+				}
+			}
+		}
+	}
 	// C18: what is left behind once everything has been answered
 	// (replies of handlers that have just returned may still be on their way:
 	// wait, bounded, until the tables are empty before taking the snapshot)
-	cg := 0
-	for i := 0; i < 4000; i++ {
-		left := 0
-		for n := 1; n <= nn; n++ {
-			left += gorums.VerifRouterCount(e.Node(n).RawNode)
-		}
-		if left == 0 {
-			if cg = CallGoroutines(); cg == 0 {
-				break
-			}
-		}
-		time.Sleep(250 * time.Microsecond)
-	}
+	cg := r.awaitNoResidue(1500 * time.Millisecond)
 	for n := 1; n <= nn; n++ {
 		tr.Emit("Routers", uint32(n), 0, "count", gorums.VerifRouterCount(e.Node(n).RawNode))
 	}
 	tr.Emit("ProgEnd", 0, 0, "clean", clean, "callgoroutines", cg)
+	LastProgramClean = clean && cg == 0
+	for n := 1; n <= nn; n++ {
+		if gorums.VerifRouterCount(e.Node(n).RawNode) != 0 {
+			LastProgramClean = false
+		}
+	}
 	for _, c := range calls {
 		e.QS.Forget(c.tok)
 		for _, sv := range e.Servers {
@@ -302,6 +325,10 @@ func CallGoroutines() int {
 func (r *Runner) FreeCall(method string, size, k int, nsw bool, cancel string, delay time.Duration) uint64 {
 	e := r.E
 	tr := e.Tr
+	if atomic.LoadInt32(&r.Stuck) >= 5 {
+		// enough evidence; further calls would wait out the same timeouts
+		return 0
+	}
 	tok := e.NextTok()
 	kind := methodKind[method]
 	req := &puppet.Req{Call: tok}
@@ -352,20 +379,22 @@ func (r *Runner) FreeCall(method string, size, k int, nsw bool, cancel string, d
 	}
 	select {
 	case <-done:
-	case <-time.After(4 * SyncTimeout):
+	case <-time.After(SyncTimeout + delay):
+		atomic.AddInt32(&r.Stuck, 1)
 		tr.Emit("Quiescent", 0, tok, "why", "stub did not return")
 	}
 	// asynchronous calls: wait for the future / correctable to complete, so that
 	// a goroutine's calls follow each other like a user's would
 	switch {
 	case obj.asyncRep != nil:
-		obj.asyncRep.Get()
+		r.getOrStuck(tok, func() { obj.asyncRep.Get() })
 	case obj.asyncAgg != nil:
-		obj.asyncAgg.Get()
+		r.getOrStuck(tok, func() { obj.asyncAgg.Get() })
 	case obj.corr != nil:
 		select {
 		case <-obj.corr.Done():
-		case <-time.After(4 * SyncTimeout):
+		case <-time.After(SyncTimeout + delay):
+			atomic.AddInt32(&r.Stuck, 1)
 			tr.Emit("Quiescent", 0, tok, "why", "correctable did not complete")
 		}
 	}
@@ -409,19 +438,7 @@ func (r *Runner) Settle(toks []uint64) bool {
 			time.Sleep(5 * time.Millisecond)
 		}
 	}
-	cg := 0
-	for i := 0; i < 8000; i++ {
-		left := 0
-		for n := 1; n <= nn; n++ {
-			left += gorums.VerifRouterCount(e.Node(n).RawNode)
-		}
-		if left == 0 {
-			if cg = CallGoroutines(); cg == 0 {
-				break
-			}
-		}
-		time.Sleep(250 * time.Microsecond)
-	}
+	cg := r.awaitNoResidue(3 * time.Second)
 	for n := 1; n <= nn; n++ {
 		tr.Emit("Routers", uint32(n), 0, "count", gorums.VerifRouterCount(e.Node(n).RawNode))
 	}
@@ -450,4 +467,47 @@ func LibGoroutines() int {
 		}
 	}
 	return c
+}
+
+// awaitNoResidue waits, for at most d, until the router tables of all nodes
+// are empty and no per-call goroutine is left; it returns the number of
+// per-call goroutines found last.
+func (r *Runner) awaitNoResidue(d time.Duration) int {
+	e := r.E
+	deadline := time.Now().Add(d)
+	pause := 200 * time.Microsecond
+	cg := -1
+	for {
+		left := 0
+		for n := 1; n <= len(e.Servers); n++ {
+			left += gorums.VerifRouterCount(e.Node(n).RawNode)
+		}
+		if left == 0 {
+			if cg = CallGoroutines(); cg == 0 {
+				return 0
+			}
+		}
+		if time.Now().After(deadline) {
+			if cg < 0 {
+				cg = CallGoroutines()
+			}
+			return cg
+		}
+		time.Sleep(pause)
+		if pause < 20*time.Millisecond {
+			pause *= 2
+		}
+	}
+}
+
+// getOrStuck waits for a future, bounded.
+func (r *Runner) getOrStuck(tok uint64, get func()) {
+	done := make(chan struct{})
+	go func() { get(); close(done) }()
+	select {
+	case <-done:
+	case <-time.After(2 * SyncTimeout):
+		atomic.AddInt32(&r.Stuck, 1)
+		r.E.Tr.Emit("Quiescent", 0, tok, "why", "future did not complete")
+	}
 }
